@@ -76,6 +76,7 @@ def handle (line : String) : String :=
   | "tags" :: rest => Sat.tags rest
   | "timer" :: rest => Sat.timer rest
   | "tlsdial" :: rest => Sat.tlsdial rest
+  | "tlsdial2" :: rest => Sat.tlsdial2 rest
   | ["selfcheck"] => "ok"
   | "cmon" :: _ =>
     let v := CM.all (CM.parseHist ((line.drop 5).toString))
